@@ -581,6 +581,10 @@ class CallMixin:
                 return True
             if t == v.tag:
                 return True
+            if t.startswith("enum:") and v.tag == "enum" and v.z == t[5:]:
+                return True
+            if t.startswith("str:") and v.tag == "str" and v.z == t[4:]:
+                return True
             if t == "true" and v.tag == "bool" and z3.is_true(v.z):
                 return True
             if t == "false" and v.tag == "bool" and z3.is_false(v.z):
